@@ -381,6 +381,8 @@ def genCall (su : HistSetup) (j : Nat) : GenMode → Ret GenOut
   | .nullPub => nonceGen true false (some (stepRand su.seed j)) (some su.kp.sk) (some su.kp.pk) (some su.msg) (some su.cache) none
   | .ctr => nonceGenCounter true true ((su.ctrBase + j) % 2 ^ 64) (some su.kp) (some su.msg) (some su.cache) none
   | .ctrBadKp => nonceGenCounter true true ((su.ctrBase + j) % 2 ^ 64) (some Keys.Keypair.zero) (some su.msg) (some su.cache) none
+  | .ctrZeroSec => nonceGenCounter true true ((su.ctrBase + j) % 2 ^ 64) (some { su.kp with sk := Bytes.zeros 32 }) (some su.msg) (some su.cache) none
+  | .ctrOvfSec => nonceGenCounter true true ((su.ctrBase + j) % 2 ^ 64) (some { su.kp with sk := List.replicate 32 0xff }) (some su.msg) (some su.cache) none
 
 theorem runStep_gen (su : HistSetup) (j : Nat) (st : HistState) (slot : Nat) (m : GenMode) :
     runStep su j st (.gen slot m) =
